@@ -3,6 +3,7 @@
 #include "common.h"
 #include "runtime/d_array.h"
 #include "runtime/d_string.h"
+#include "runtime/d_boolean.h"
 #include "runtime/d_code.h"
 #include "parser/sqf/sqf_formatter.h"
 #include <sstream>
@@ -126,3 +127,50 @@ static void cmd_asm(const J& c)
     }
 }
 static registrar r2("asm", cmd_asm);
+
+// val: evaluate expressions, report str of the value, whether `(call compile str v) isEqualTo v` holds
+// inside the VM, and for numbers the IEEE single-precision bits (C06).
+// case: {"id":..,"exprs":["1.5","\"a\"\"b\"",...]}
+#include "runtime/d_scalar.h"
+#include <cstring>
+static void cmd_val(const J& c)
+{
+    auto v = make_vm();
+    auto& rt = *v.rt;
+    size_t k = 0;
+    for (auto& e : c.at("exprs").a)
+    {
+        k++;
+        J o = ev("Val");
+        o.set("k", (long long)k);
+        v.logger->all.clear();
+        auto set = compile(rt, "vd__v = nil; vd__rt = nil; vd__v = " + e.s + "; vd__rt = (call compile str vd__v) isEqualTo vd__v;", "val.sqf", false);
+        o.set("ok", set.has_value());
+        if (set.has_value())
+        {
+            add_context(rt, *set, "val", false);
+            auto res = rt.execute(sqf::runtime::runtime::action::start);
+            if (res != sqf::runtime::runtime::result::empty) { rt.execute(sqf::runtime::runtime::action::abort); }
+            o.set("res", result_name(res));
+            auto scope = rt.default_value_scope();
+            auto val = scope->contains("vd__v") ? scope->at("vd__v") : sqf::runtime::value();
+            auto rtv = scope->contains("vd__rt") ? scope->at("vd__rt") : sqf::runtime::value();
+            o.set("printed", val.to_string_sqf());
+            o.set("type", std::string(val.type().to_string()));
+            o.set("rt", !rtv.empty() && rtv.is<sqf::runtime::t_boolean>() ? (rtv.data<sqf::types::d_boolean, bool>() ? "true" : "false") : "none");
+            if (!val.empty() && val.is<sqf::runtime::t_scalar>())
+            {
+                float f = val.data<sqf::types::d_scalar, float>();
+                uint32_t bits; std::memcpy(&bits, &f, 4);
+                char buf[16]; snprintf(buf, sizeof(buf), "%08x", bits);
+                o.set("bits", std::string(buf));
+            }
+            if (!val.empty() && val.is<sqf::runtime::t_string>()) { o.set("raw", val.data<sqf::types::d_string, std::string>()); }
+        }
+        long long nerr = 0;
+        for (auto& d : v.logger->all) { if (d.level <= 1) { nerr++; } }
+        o.set("nerr", nerr);
+        emit(o);
+    }
+}
+static registrar r3("val", cmd_val);
